@@ -284,7 +284,7 @@ def run_case(i, script=None, info=None, wd=None):
             return out
         if res.rc in (97, 98):
             raise core.HarnessError("rtdrv harness error: " + res.err[-500:])
-        if info.get("eintr") and res.sig == 6 and res.err.strip():
+        if (info.get("eintr") or info.get("fault_expected")) and res.sig == 6 and res.err.strip():
             out["aborted_on_fault"] = 1      # terminated with a diagnostic: allowed, nothing to compare
             return out
         if res.rc != 0 or "RTDRV-DONE" not in res.out:
@@ -480,6 +480,50 @@ def run_rerun(k):
     finally:
         if holder is not None:
             holder.kill(); holder.wait()
+        shutil.rmtree(wd, ignore_errors=True)
+
+
+def run_fsize(k):
+    """A file size limit (quota) strikes while the stream is relocated from OVNI_TMPDIR: the limit is set
+    after the last flush, just before ovni_thread_free, a few bytes (1 .. a little over a stdio block ..
+    70000) below the size of the stream.  The library may stop the program with a diagnostic; if the
+    program ends normally the stream in the trace directory must be what was emitted."""
+    chk, drv = _CTX["chk"], _CTX["drv"]
+    rng = chk.rng(k, "fsize")
+    wd = os.path.join(chk.scratch, "fsize-%d-%d" % (os.getpid(), k))
+    out0 = {"i": k, "kind": "fsize", "viol": None, "inconclusive": None, "events": 0, "markers": 0, "bytes": 0,
+            "feat": set(), "shortwrites": 0, "aborted_on_fault": 0}
+    jsz = rng.choice([200000, 300000, 1048576])        # (the driver's own emit log must stay below the limit)
+    ops = ["ev OHx 1000 %s" % obs.i32(0, 1000, 0).hex(), "jumbo OB. now %d 5" % jsz] + \
+          ["ev OB. now %04x" % j for j in range(rng.randint(1, 300))] + ["ev OHe now -"]
+    delta = [1, 100, 4095, 4097, rng.randint(2, 2000), 70000][k % 6]
+    try:
+        size = None
+        for run in range(2):
+            shutil.rmtree(wd, ignore_errors=True)
+            os.makedirs(wd)
+            o = list(ops)
+            if run == 1:
+                if delta >= size:
+                    out0["inconclusive"] = "stream smaller than the margin"; return out0
+                o += ["flush", "fsize %d" % (size - delta)]
+            # (not make_script: its extra flush would write the markers of the previous one to the
+            # temporary stream after the limit is in force)
+            script = "\n".join(["proc 1 node0 100", "thread", "init 1000", "cpu 0 0"] + o
+                               + (["flush"] if run == 0 else []) + ["free", "end", "fini"]) + "\n"
+            info = {"case": k, "kind": "fsize", "script": script, "tmpdir": True, "autoflush_expected": None,
+                    "nostdin": False, "eintr": 0, "fault_expected": run == 1}
+            if run == 0:
+                r = rt.run_script(drv, script, wd, env={"OVNI_TMPDIR": os.path.join(wd, "tmp")}, timeout=120)
+                sd = obs.find_streams(os.path.join(wd, "trace"))
+                if r.rc != 0 or len(sd) != 1:
+                    out0["inconclusive"] = "measuring run failed"; return out0
+                size = os.path.getsize(os.path.join(sd[0], "stream.obs"))
+        out = run_case(500000 + k, info=info, wd=wd)
+        out["i"] = k
+        out["fsize_script"] = script if out["viol"] else None
+        return out
+    finally:
         shutil.rmtree(wd, ignore_errors=True)
 
 
@@ -718,6 +762,17 @@ def main(argv):
             if out["viol"]:
                 key, what, obsv = out["viol"]
                 chk.report(key, what, {"huge": out["i"], "observation": obsv})
+        for out in core.pmap(run_fsize, list(range(6 if chk.tier == "quick" else 120))):
+            if out["inconclusive"]:
+                chk.note_inconclusive(out["inconclusive"]); continue
+            evaluated += 1
+            kinds[out["kind"]] = kinds.get(out["kind"], 0) + 1
+            for k in tot:
+                tot[k] += out[k]
+            if out["viol"]:
+                key, what, obsv = out["viol"]
+                chk.report(key + ":fsize", what + " [file size limit set before ovni_thread_free, OVNI_TMPDIR]",
+                           {"fsize": out["i"], "script_head": (out.get("fsize_script") or "")[:2000], "observation": obsv})
         for out in core.pmap(run_rerun, list(range(8 if chk.tier == "quick" else 120))):
             if out["inconclusive"]:
                 chk.note_inconclusive(out["inconclusive"]); continue
